@@ -47,26 +47,26 @@ var (
 	reConvCheckU64 = regexp.MustCompile(`^v = (int64)\(tv\) ; if int64\(tv\) < 0 \{ err = newCoerceErr\((?:v|tv), "\w+"\) \}$`)
 	reFmtUint      = regexp.MustCompile(`^v = strconv\.FormatUint\((tv|uint64\(tv\)), 10\)$`)
 	// finiteness-checked float arms: non-finite (overflowed, NaN, ±Inf) values are refused with nil
-	reFinite3264 = regexp.MustCompile(`^v = (float32|float64)\(tv\) ; if math\.IsInf\(float64\((?:float32\(tv\)|tv)\), 0\) \|\| tv != tv \{ v = nil err = newCoerceErr\(tv, "\w+"\) \}$`)
-	reFiniteAsIs = regexp.MustCompile(`^if math\.IsInf\((float64\(tv\)|tv), 0\) \|\| tv != tv \{ v = nil err = newCoerceErr\(tv, "\w+"\) \}$`)
+	reFinite3264  = regexp.MustCompile(`^v = (float32|float64)\(tv\) ; if math\.IsInf\(float64\((?:float32\(tv\)|tv)\), 0\) \|\| tv != tv \{ v = nil err = newCoerceErr\(tv, "\w+"\) \}$`)
+	reFiniteAsIs  = regexp.MustCompile(`^if math\.IsInf\((float64\(tv\)|tv), 0\) \|\| tv != tv \{ v = nil err = newCoerceErr\(tv, "\w+"\) \}$`)
 	reParseFltFin = regexp.MustCompile(`^var f float64 ; if f, err = strconv\.ParseFloat\(tv, 64\); err == nil \{ v = f if math\.IsInf\(f, 0\) \|\| f != f \{ v = nil err = newCoerceErr\(tv, "\w+"\) \} \}$`)
-	reFailA        = regexp.MustCompile(`^err = newCoerceErr\((v|tv), ("\w+"|t\.N|t\.Name\(\))\) ; v = nil$`)
-	reFailB        = regexp.MustCompile(`^v = nil ; err = newCoerceErr\((v|tv), ("\w+"|t\.N|t\.Name\(\))\)$`)
-	reItoa         = regexp.MustCompile(`^v = strconv\.Itoa\((tv|int\(tv\))\)$`)
-	reFmtInt       = regexp.MustCompile(`^v = strconv\.FormatInt\((tv|int64\(tv\)), 10\)$`)
-	reFmtFloat     = regexp.MustCompile(`^v = strconv\.FormatFloat\((tv|float64\(tv\)), 'g', -1, (32|64)\)$`)
-	reParseInt     = regexp.MustCompile(`^var i int64 ; if i, err = strconv\.ParseInt\(tv, 10, (32|64)\); err == nil \{ v = (int32\(i\)|i) \}$`)
-	reParseFlt     = regexp.MustCompile(`^var f float64 ; if f, err = strconv\.ParseFloat\(tv, 64\); err == nil \{ v = (float32\(f\)|f) \}$`)
-	reParseBool    = regexp.MustCompile(`^var b bool ; if b, err = strconv\.ParseBool\(tv\); err == nil \{ v = b \}$`)
-	reNeZero       = regexp.MustCompile(`^v = tv != 0(\.0)?$`)
-	reBoolStr      = regexp.MustCompile(`^if tv \{ v = trueStr \} else \{ v = falseStr \}$`)
-	reAssignTv     = regexp.MustCompile(`^v = tv$`)
-	reSymStr       = regexp.MustCompile(`^v = string\(tv\)$`)
-	reTimeF        = regexp.MustCompile(`^secs := int64\(tv\) ; (v|tt) = time\.Unix\(0, secs\*int64\(time\.Second\)\)\.In\(time\.UTC\)\.Add\(time\.Duration\(\(tv - float64\(secs\)\) \* float64\(time\.Second\)\)\)$`)
-	reTimeI        = regexp.MustCompile(`^(v|tt) = time\.Unix\(0, tv\*int64\(time\.Second\)\)\.In\(time\.UTC\)$`)
-	reTimeP        = regexp.MustCompile(`^var t time\.Time ; if t, err = time\.Parse\(time\.RFC3339Nano, tv\); err == nil \{ v = t \}$`)
-	reTimeP2       = regexp.MustCompile(`^tt, err = time\.Parse\(time\.RFC3339Nano, tv\)$`)
-	reTimeAs       = regexp.MustCompile(`^tt = tv$`)
+	reFailA       = regexp.MustCompile(`^err = newCoerceErr\((v|tv), ("\w+"|t\.N|t\.Name\(\))\) ; v = nil$`)
+	reFailB       = regexp.MustCompile(`^v = nil ; err = newCoerceErr\((v|tv), ("\w+"|t\.N|t\.Name\(\))\)$`)
+	reItoa        = regexp.MustCompile(`^v = strconv\.Itoa\((tv|int\(tv\))\)$`)
+	reFmtInt      = regexp.MustCompile(`^v = strconv\.FormatInt\((tv|int64\(tv\)), 10\)$`)
+	reFmtFloat    = regexp.MustCompile(`^v = strconv\.FormatFloat\((tv|float64\(tv\)), 'g', -1, (32|64)\)$`)
+	reParseInt    = regexp.MustCompile(`^var i int64 ; if i, err = strconv\.ParseInt\(tv, 10, (32|64)\); err == nil \{ v = (int32\(i\)|i) \}$`)
+	reParseFlt    = regexp.MustCompile(`^var f float64 ; if f, err = strconv\.ParseFloat\(tv, 64\); err == nil \{ v = (float32\(f\)|f) \}$`)
+	reParseBool   = regexp.MustCompile(`^var b bool ; if b, err = strconv\.ParseBool\(tv\); err == nil \{ v = b \}$`)
+	reNeZero      = regexp.MustCompile(`^v = tv != 0(\.0)?$`)
+	reBoolStr     = regexp.MustCompile(`^if tv \{ v = trueStr \} else \{ v = falseStr \}$`)
+	reAssignTv    = regexp.MustCompile(`^v = tv$`)
+	reSymStr      = regexp.MustCompile(`^v = string\(tv\)$`)
+	reTimeF       = regexp.MustCompile(`^secs := int64\(tv\) ; (v|tt) = time\.Unix\(0, secs\*int64\(time\.Second\)\)\.In\(time\.UTC\)\.Add\(time\.Duration\(\(tv - float64\(secs\)\) \* float64\(time\.Second\)\)\)$`)
+	reTimeI       = regexp.MustCompile(`^(v|tt) = time\.Unix\(0, tv\*int64\(time\.Second\)\)\.In\(time\.UTC\)$`)
+	reTimeP       = regexp.MustCompile(`^var t time\.Time ; if t, err = time\.Parse\(time\.RFC3339Nano, tv\); err == nil \{ v = t \}$`)
+	reTimeP2      = regexp.MustCompile(`^tt, err = time\.Parse\(time\.RFC3339Nano, tv\)$`)
+	reTimeAs      = regexp.MustCompile(`^tt = tv$`)
 )
 
 func actionOf(body string, pos string, kinds []string) string {
